@@ -87,3 +87,318 @@ def json_equal(a, b):
     if isinstance(a, list) and isinstance(b, list):
         return len(a) == len(b) and all(json_equal(x, y) for x, y in zip(a, b))
     return type(a) is type(b) and a == b
+
+
+# =======================================================================================
+# three-valued reference validator / expected decoding (C06, C07)
+#
+# expect(...) -> ('A', abstract value) | ('R', reason) | ('U', why)
+# Only what docs/json_serializer.rst, the property statement or a pinned test fixes is judged.
+
+import datetime
+import re
+
+
+class Ctx:
+    def __init__(self, idx, strict, callers=frozenset()):
+        self.idx = idx
+        self.strict = strict
+        self.callers = callers
+
+
+def kind_of(j):
+    if j is None:
+        return 'null'
+    if isinstance(j, bool):
+        return 'bool'
+    if isinstance(j, (int, float)):
+        return 'number'
+    if isinstance(j, str):
+        return 'string'
+    if isinstance(j, list):
+        return 'array'
+    return 'object'
+
+
+def expect(c, t, j, where='top'):
+    idx = c.idx
+    k = t[0]
+    if k == 'alias':
+        return expect(c, idx.get(t[1], t[2])['type'], j, where)
+    if k == 'nullable':
+        if j is None:
+            return 'A', None
+        return expect(c, t[1], j, where)
+    if k == 'prim':
+        return expect_prim(t, j, c.strict, where)
+    if k == 'list':
+        if not isinstance(j, list):
+            return 'R', 'wrong-kind:array/%s@%s' % (kind_of(j), where)
+        if (t[2] is not None and len(j) < t[2]) or (t[3] is not None and len(j) > t[3]):
+            return 'R', 'list-length@%s' % where
+        out = []
+        verdict = 'A'
+        for x in j:
+            v, r = expect(c, t[1], x, 'item')
+            if v == 'R':
+                return 'R', r
+            if v == 'U':
+                verdict = 'U'
+            out.append(r)
+        return (verdict, out) if verdict == 'A' else ('U', 'element unspecified')
+    if k == 'map':
+        if not isinstance(j, dict):
+            return 'R', 'wrong-kind:object/%s@%s' % (kind_of(j), where)
+        out = {}
+        verdict = 'A'
+        for key, x in j.items():
+            kv, kr = expect(c, t[1], key, 'mapkey')
+            v, r = expect(c, t[2], x, 'mapvalue')
+            if kv == 'R':
+                return 'R', kr
+            if v == 'R':
+                return 'R', r
+            if 'U' in (kv, v):
+                verdict = 'U'
+            out[key] = r
+        return (verdict, out) if verdict == 'A' else ('U', 'entry unspecified')
+    d = idx.get(t[1], t[2])
+    if d['k'] == 'struct':
+        return expect_struct(c, t, d, j, where)
+    return expect_union(c, t, d, j, where)
+
+
+def expect_prim(t, j, strict, where):
+    name, p = t[1], M.pparams(t)
+    kj = kind_of(j)
+    if name == 'Void':
+        if j is None:
+            return 'A', None
+        return ('R', 'non-null-for-void@%s' % where) if strict else ('U', 'lenient void')
+    if name == 'Boolean':
+        return ('A', j) if kj == 'bool' else ('R', 'wrong-kind:bool/%s@%s' % (kj, where))
+    if name in M.INTS:
+        if kj == 'bool':
+            return 'U', 'bool for number'
+        if kj != 'number':
+            return 'R', 'wrong-kind:number/%s@%s' % (kj, where)
+        if isinstance(j, float):
+            if j != j or j in (float('inf'), float('-inf')):
+                return 'U', 'non-finite'
+            return ('U', 'integral float') if j == int(j) else ('R', 'fraction-for-integer@%s' % where)
+        lo, hi = M.INT_RANGES[name]
+        lo = max(lo, p.get('min_value', lo))
+        hi = min(hi, p.get('max_value', hi))
+        return ('A', j) if lo <= j <= hi else ('R', 'out-of-bounds@%s' % where)
+    if name in M.FLOATS:
+        if kj == 'bool':
+            return 'U', 'bool for number'
+        if kj != 'number':
+            return 'R', 'wrong-kind:number/%s@%s' % (kj, where)
+        try:
+            f = float(j)
+        except OverflowError:
+            return 'R', 'out-of-bounds@%s' % where
+        if f != f or f in (float('inf'), float('-inf')):
+            return 'R', 'non-finite@%s' % where
+        lo = -M.FLOAT32_MAX if name == 'Float32' else None
+        hi = M.FLOAT32_MAX if name == 'Float32' else None
+        if 'min_value' in p:
+            lo = float(p['min_value']) if lo is None else max(lo, float(p['min_value']))
+        if 'max_value' in p:
+            hi = float(p['max_value']) if hi is None else min(hi, float(p['max_value']))
+        if (lo is not None and f < lo) or (hi is not None and f > hi):
+            return 'R', 'out-of-bounds@%s' % where
+        return 'A', f
+    if name == 'String':
+        if kj != 'string':
+            return 'R', 'wrong-kind:string/%s@%s' % (kj, where)
+        if 'min_length' in p and len(j) < p['min_length']:
+            return 'R', 'string-length@%s' % where
+        if 'max_length' in p and len(j) > p['max_length']:
+            return 'R', 'string-length@%s' % where
+        if 'pattern' in p:
+            try:
+                if re.fullmatch(p['pattern'], j) is None:
+                    return 'R', 'pattern@%s' % where
+            except re.error:
+                return 'U', 'regex'
+        return 'A', j
+    if name == 'Bytes':
+        if kj != 'string':
+            return 'R', 'wrong-kind:string/%s@%s' % (kj, where)
+        try:
+            raw = base64.b64decode(j.encode('ascii'), validate=True)
+            if base64.b64encode(raw).decode('ascii') == j:
+                return 'A', raw
+        except Exception:
+            pass
+        return 'U', 'non-canonical base64'
+    if name == 'Timestamp':
+        if kj != 'string':
+            return 'R', 'wrong-kind:string/%s@%s' % (kj, where)
+        try:
+            dt = datetime.datetime.strptime(j, p['format'])
+        except ValueError:
+            return 'R', 'timestamp-format@%s' % where
+        if dt.strftime(p['format']) != j:
+            return 'U', 'non-canonical timestamp'
+        return 'A', dt
+    raise AssertionError(name)
+
+
+def struct_has_required(idx, ns, d):
+    return any(not idx.is_optional(f) for _, _, f in idx.struct_all_fields(ns, d))
+
+
+def expect_struct_fields(c, ns, d, j, where, ignore=('.tag',)):
+    """j is a dict; returns verdict for the fields of concrete struct (ns, d)."""
+    from .values import omitted_for
+    idx = c.idx
+    fields = {}
+    verdict = 'A'
+    known = set()
+    for _, _, f in idx.struct_all_fields(ns, d):
+        if omitted_for(idx, f, c.callers):
+            continue
+        name = f['name']
+        known.add(name)
+        if name in j:
+            if j[name] is None and not idx.is_nullable(f['type']):
+                b = idx.base(f['type'])
+                if b[0] == 'ref':
+                    kd = idx.get(b[1], b[2])
+                    if kd['k'] == 'struct' and not struct_has_required(idx, b[1], kd):
+                        verdict = 'U'      # pinned: null decodes to the default struct
+                        continue
+                if b == M.VOID:
+                    continue
+                return 'R', 'null-for-non-nullable-field@%s' % where
+            v, r = expect(c, f['type'], j[name], 'field')
+            if v == 'R':
+                return 'R', r
+            if v == 'U':
+                verdict = 'U'
+            elif r is not None or not idx.is_nullable(f['type']):
+                fields[name] = r
+        elif not idx.is_optional(f):
+            b = idx.base(f['type'])
+            if b[0] == 'ref':
+                kd = idx.get(b[1], b[2])
+                if kd['k'] == 'struct' and not struct_has_required(idx, b[1], kd) and not kd.get('subtypes'):
+                    verdict = 'U'          # pinned: test_struct_decoding_with_optional_struct
+                    continue
+            return 'R', 'missing-required-field@%s' % where
+    extra = [key for key in j if key not in known and key not in ignore]
+    if extra:
+        if any(key.startswith('.tag') for key in extra):
+            verdict = 'U'
+        elif c.strict:
+            return 'R', 'strict-unknown-field@%s' % where
+    return verdict, fields
+
+
+def expect_struct(c, t, d, j, where):
+    idx = c.idx
+    ns = t[1]
+    if j is None and not d.get('subtypes') and not struct_has_required(idx, ns, d):
+        return 'U', 'null for all-optional struct'
+    if not isinstance(j, dict):
+        return 'R', 'wrong-kind:object/%s@%s%s' % (kind_of(j), where, '(subtypes)' if d.get('subtypes') else '')
+    if d.get('subtypes'):
+        if '.tag' not in j:
+            return 'R', 'missing-subtype-tag@%s' % where
+        tag = j['.tag']
+        if not isinstance(tag, str):
+            return 'R', 'non-string-subtype-tag@%s' % where
+        kids = dict(d['subtypes']['items'])
+        if tag in kids:
+            kd = idx.get(ns, kids[tag])
+            v, r = expect_struct_fields(c, ns, kd, j, where)
+            return (v, ('struct', (ns, kd['name']), r)) if v == 'A' else (v, r)
+        if c.strict:
+            return 'R', 'strict-unknown-subtype@%s' % where
+        if d['subtypes']['closed']:
+            return 'R', 'unknown-subtype-closed@%s' % where
+        # catch-all: "it deserializes the message to an A object"
+        lenient = Ctx(idx, False, c.callers)
+        v, r = expect_struct_fields(lenient, ns, d, j, where)
+        return (v, ('struct', (ns, d['name']), r)) if v == 'A' else (v, r)
+    v, r = expect_struct_fields(c, ns, d, j, where)
+    if v == 'A' and '.tag' in j:
+        return 'U', '.tag on a plain struct'
+    return (v, ('struct', (ns, d['name']), r)) if v == 'A' else (v, r)
+
+
+def expect_union(c, t, d, j, where):
+    from .values import omitted_for
+    idx = c.idx
+    ns = t[1]
+    tags = {tg['name']: tg for _, _, tg in idx.union_all_tags(ns, d) if not omitted_for(idx, tg, c.callers)}
+    is_open = any(tg.get('catch_all') for tg in tags.values())
+
+    def unknown(tag):
+        if not is_open:
+            return 'R', 'unknown-tag-closed-union@%s' % where
+        if c.strict:
+            return 'R', 'strict-unknown-tag@%s' % where
+        return 'A', ('union', (ns, d['name']), 'other', None)
+    if isinstance(j, str):
+        if j not in tags:
+            return unknown(j)
+        tg = tags[j]
+        if tg.get('catch_all'):
+            return 'R', 'catch-all-tag-itself@%s' % where
+        if tg['type'] is None:
+            return 'A', ('union', (ns, d['name']), j, None)      # compact form of void tags
+        if idx.is_nullable(tg['type']):
+            return 'U', 'bare string for nullable member'
+        return 'R', 'bare-string-for-valued-tag@%s' % where
+    if not isinstance(j, dict):
+        return 'R', 'wrong-kind:object/%s@%s(union)' % (kind_of(j), where)
+    if '.tag' not in j:
+        return 'R', 'missing-tag@%s' % where
+    tag = j['.tag']
+    if not isinstance(tag, str):
+        return 'R', 'non-string-tag@%s' % where
+    if tag not in tags:
+        return unknown(tag)
+    tg = tags[tag]
+    if tg.get('catch_all'):
+        return 'R', 'catch-all-tag-itself@%s' % where
+    others = [key for key in j if key not in ('.tag', tag)]
+    if tg['type'] is None:
+        if tag in j and j[tag] is not None:
+            return ('R', 'value-for-void-tag@%s' % where) if c.strict else ('U', 'lenient void payload')
+        if others:
+            return ('R', 'strict-unknown-field@%s(void tag)' % where) if c.strict else \
+                ('A', ('union', (ns, d['name']), tag, None))
+        if tag in j:
+            return 'U', 'explicit null for void tag'
+        return 'A', ('union', (ns, d['name']), tag, None)
+    nullable = idx.is_nullable(tg['type'])
+    b = idx.base(tg['type'])
+    if b[0] == 'ref' and idx.get(b[1], b[2])['k'] == 'struct' and not idx.get(b[1], b[2]).get('subtypes'):
+        kd = idx.get(b[1], b[2])
+        if nullable and len(j) == 1:
+            return 'A', ('union', (ns, d['name']), tag, None)     # tag-only nullable member
+        v, r = expect_struct_fields(c, b[1], kd, j, where + '(flattened)')
+        if v != 'A':
+            return v, r
+        if nullable and not r and not struct_has_required(idx, b[1], kd):
+            return 'U', 'empty nullable struct member'
+        return 'A', ('union', (ns, d['name']), tag, ('struct', (b[1], kd['name']), r))
+    if tag not in j:
+        if nullable:
+            if others:
+                return 'U', 'extra keys'
+            return 'A', ('union', (ns, d['name']), tag, None)
+        return 'R', 'missing-tag-value@%s' % where
+    if others:
+        return ('R', 'strict-unknown-field@%s(valued tag)' % where) if c.strict else ('U', 'extra keys lenient')
+    if j[tag] is None and nullable:
+        return 'U', 'explicit null for nullable member'
+    v, r = expect(c, tg['type'], j[tag], 'tagvalue')
+    if v != 'A':
+        return v, r
+    return 'A', ('union', (ns, d['name']), tag, r)
